@@ -150,11 +150,26 @@ class MergeConsecutiveOp(BaseOp):
                 in_group = True
                 group_count += 1
                 continue
-            if in_group and row.equals(match_df.loc[index - 1, :]):
+            if in_group and MergeConsecutiveOp._rows_match(row, match_df.loc[index - 1, :]):
                 remove_groups[index] = group_count
             else:
                 group_count += 1
         return remove_groups
+
+    @staticmethod
+    def _rows_match(row1, row2):
+        """ Return True if the two rows have the same values, with missing values counting as equal.
+
+        Notes:
+            Series.equals also compares the dtypes that pandas infers for the two rows, which may differ
+            although the values are the same.
+        """
+        for value1, value2 in zip(row1.tolist(), row2.tolist()):
+            if pd.isna(value1) and pd.isna(value2):
+                continue
+            if pd.isna(value1) or pd.isna(value2) or value1 != value2:
+                return False
+        return True
 
     @staticmethod
     def _update_durations(df_new, remove_groups):
